@@ -267,7 +267,14 @@ class Ctx:
                         if (t2, p2) in seen:
                             continue
                         seen.add((t2, p2))
-                        out.append((t2, p2, t.ast))
+                        # a true disjunction / false conjunction says nothing about its parts:
+                        # it is handed out wrapped, so that `contains` cannot look inside
+                        # (unweak() gives the term back for rules that match it as a whole)
+                        if t2[0] == 'bool' and ((t2[1] == 'or' and p2) or
+                                                (t2[1] == 'and' and not p2)):
+                            out.append((('weak', t2), p2, t.ast))
+                        else:
+                            out.append((t2, p2, t.ast))
                         # facts implied by a true conjunction / a false disjunction
                         if t2[0] == 'bool' and ((t2[1] == 'and' and p2) or
                                                 (t2[1] == 'or' and not p2)):
@@ -355,6 +362,11 @@ def negate_term(t):
         if all(p is not None for p in parts):
             return ('bool', 'or' if t[1] == 'and' else 'and', tuple(parts))
     return None
+
+
+def unweak(t):
+    """The term of a guard that ctx.guards handed out wrapped (see there)."""
+    return t[1] if isinstance(t, tuple) and t and t[0] == 'weak' else t
 
 
 def guard_equivalents(t, pol):
